@@ -267,3 +267,8 @@ Definition req_prop (d : bytes) (registered : list bytes) (q : hreq) (tag : byte
 (* whether the handler runs *)
 Definition req_runs (q : hreq) : bool :=
   sec_admitted (hq_sec q) && acceptable (hq_specs q) (rt_produces (hq_route q)).
+
+(* ---- the API's error responder is invoked: every error answer of the request went to the responder the API has
+   when the request is served (invoked = the responders called while the request was answered, in order) ---- *)
+Definition responder_ok (c : responder_cfg) (invoked : list nat) : bool :=
+  forallb (Nat.eqb (responder_in_force c)) invoked.
